@@ -307,9 +307,46 @@ def gen_case(rnd, nrows=None):
     header = [r.upper() if r not in ('_', '*') else 'X' for r in lay['roles']]
     if rnd.random() < .1:
         header = rnd.choice([[], ['only'], header + ['more'], ['2024-01-02', 'looks like data', '5.00']])
+    elif rnd.random() < .3:        # the header is one csv RECORD: cells with line breaks, quotes, delimiters
+        header = [mangle_header_cell(rnd, h) if rnd.random() < .5 else h for h in header]
+    if lay['kind'] == 'regex':     # ... but one physical line for a regex delimiter
+        header = [h.replace('\n', ' ').replace('|', '/') for h in header]
     case = {'source': src, 'lay': lay, 'rows': rows, 'header': header,
             'quoting': rnd.choice([csv.QUOTE_MINIMAL, csv.QUOTE_MINIMAL, csv.QUOTE_ALL]), 'lt': rnd.choice(['\n', '\r\n', '\n'])}
     return case
+
+
+def mangle_header_cell(rnd, h):
+    return rnd.choice([h + '\n', '\n' + h, h[:2] + '\n' + h[2:], h + '\n(USD)', '\n', h + '\n\n', '"' + h, h + '"', h + ',;\t|', 'a""b\n',
+                       ' ' + h + ' \n'])
+
+
+HEADER_VARIANTS = [['Date', 'Description', 'Amount\n'], ['Date\n', 'Description', 'Amount'], ['Date', 'Description\n', 'Amount'],
+                   ['Posting\nDate', 'Description', 'Amount\n(USD)'], ['\nDate', '\n', 'Amount\n\n'], ['\n', '', ''], ['\n'],
+                   ['"', 'a""b\n', 'x"'], ['Date', 'Desc,ription;x\ty', 'Amount'], ['Date', 'Description', 'Amount', 'Extra\n'], []]
+
+
+def header_corpus():
+    """Every header shape x comma / ';' / tab / '|' delimiter, three well-formed rows (one with a quoted cell) + ground truth."""
+    out = []
+    for hv in HEADER_VARIANTS:
+        for dl in [',', ';', '\t', '|']:
+            src = {'name': 'Bank', 'format': '{date:%Y-%m-%d}, {description}, {amount}'}
+            if dl != ',':
+                src['delimiter'] = 'tab' if dl == '\t' and len(out) % 2 else dl
+            if len(out) % 3 == 0:
+                src['has_header'] = True
+            rows = []
+            for j, (de, am, v) in enumerate([('COFFEE', '4.50', Fraction(9, 2)), ('TEA HOUSE', '-12.00', Fraction(-12)),
+                                             ('He said "hi"' + dl + ' x', '7', Fraction(7)), ('LAST', '1.25', Fraction(5, 4))]):
+                rows.append({'cells': ['2024-04-%02d' % (1 + j), de, am], 'kind': 'good', 'truth': 'accept',
+                             'expect': {'date': '2024-04-%02dT00:00:00' % (1 + j), 'desc': de.strip(), 'value': [v.numerator, v.denominator],
+                                        'field': None}})
+            lay = {'mode': 'desc', 'roles': ['date', 'description', 'amount'], 'names': [], 'date_format': '%Y-%m-%d', 'conv': '.',
+                   'kind': 'csv', 'delim_char': dl, 'regex': None, 'opt_last': False, 'tmpl_pieces': None, 'has_header': True}
+            out.append({'source': src, 'lay': lay, 'rows': rows, 'header': hv, 'quoting': csv.QUOTE_MINIMAL,
+                        'lt': '\r\n' if len(out) % 4 == 1 else '\n'})
+    return out
 
 
 def written_amounts(conv):
@@ -414,7 +451,7 @@ def corpus_cases():
        [{'cells': ['2024-01-05', '4.50'], 'kind': 'short', 'truth': 'reject'},
         {'cells': ['2024-01-06', '5.50', 'SHOP'], 'kind': 'good', 'truth': 'accept',
          'expect': {'date': '2024-01-06T00:00:00', 'desc': 'xSHOP', 'value': [11, 2], 'field': [('merchant', 'SHOP')]}}])
-    return out + amount_corpus()
+    return out + amount_corpus() + header_corpus()
 
 
 # =====================================================================================================
